@@ -7,6 +7,7 @@ import (
 	"crypto/ed25519"
 	"crypto/rsa"
 	"fmt"
+	"hash/crc32"
 	"time"
 
 	psatoken "github.com/veraison/psatoken"
@@ -385,6 +386,74 @@ func init() {
 			}
 		}, nil
 	}
+	// a modified token engineered so that a non-cryptographic checksum of it equals the genuine token's (what a
+	// "have I verified this already" shortcut would be keyed by): the genuine token is verified first, in this process
+	Scenarios["c02.checksum-collisions"] = func() (choice.Scenario, func() any) {
+		seeds := map[string]*c02Seed{}
+		for _, alg := range fixtures.AlgNames {
+			seeds[alg] = c02MakeSeed(alg, 1, 0)
+		}
+		tabs := []*crc32.Table{crc32.IEEETable, crc32.MakeTable(crc32.Castagnoli), crc32.MakeTable(crc32.Koopman)}
+		return func(c *choice.Ctx) {
+			alg := fixtures.AlgNames[c.Choose("alg", len(fixtures.AlgNames))]
+			s := seeds[alg]
+			tab := tabs[c.Choose("checksum", len(tabs))]
+			layout := c.Choose("checksummed-bytes", 4)
+			where := c.Choose("altered-payload-byte", 3)
+			// the genuine token verifies (and whatever remembers that, remembers it)
+			ev, err := psatoken.DecodeEvidenceFromCOSE(append([]byte{}, s.tok...))
+			if err != nil || ev.Verify(s.key.Pub) != nil {
+				return
+			}
+			payload := append([]byte{}, s.view.payload...)
+			off := []int{len(payload) - 1, len(payload) / 2, 8}[where]
+			payload[off] ^= 0x01
+			sig := append([]byte{}, s.view.sig...)
+			cat := func(parts ...[]byte) []byte {
+				var o []byte
+				for _, p := range parts {
+					o = append(o, p...)
+				}
+				return o
+			}
+			build := func(sg []byte) (whole, summed []byte) {
+				whole = envelope(s.view.prot, nil, payload, sg)
+				switch layout {
+				case 0:
+					summed = whole
+				case 1:
+					summed = cat(s.view.prot, payload, sg)
+				case 2:
+					summed = cat(payload, sg)
+				case 3:
+					summed = sigStructure(s.view.prot, payload)
+					summed = cat(summed, sg)
+				}
+				return
+			}
+			_, genuine := func() ([]byte, []byte) {
+				p0 := payload
+				payload = s.view.payload
+				w, sm := build(s.view.sig)
+				payload = p0
+				return w, sm
+			}()
+			target := crc32.Update(0, tab, genuine)
+			_, summed := build(sig)
+			patch := forgeCRC32(summed[:len(summed)-4], target, tab)
+			copy(sig[len(sig)-4:], patch[:])
+			mut, summed2 := build(sig)
+			if crc32.Update(0, tab, summed2) != target || len(mut) != len(s.tok) {
+				panic(choice.HarnessError{Msg: "c02.checksum-collisions: construction failed"})
+			}
+			c02stats.State(mut)
+			c02Judge(c, c02stats, s, mut, s.key.Pub, true, fmt.Sprintf("%s:checksum-collision-%d", alg, layout))
+			// and once more on the Evidence that verified the genuine token
+			if ev.UnmarshalCOSE(append([]byte{}, mut...)) == nil && ev.Verify(s.key.Pub) == nil {
+				c.Failf(fmt.Sprintf("C02:modified-verifies:%s:checksum-collision-%d:used-evidence", alg, layout), "a token with an altered payload and a patched signature verifies")
+			}
+		}, nil
+	}
 	// the key object the caller passes may be reused for another key afterwards: the verdict follows the key's value
 	Scenarios["c02.key-object-reused"] = func() (choice.Scenario, func() any) {
 		seeds := map[string]*c02Seed{}
@@ -520,6 +589,7 @@ func init() {
 		exploreChoice(r, "c02.unusable-keys", -1, dl)
 		exploreChoice(r, "c02.evidence-copies", -1, dl)
 		exploreChoice(r, "c02.key-object-reused", -1, dl)
+		exploreChoiceOpts(r, "c02.checksum-collisions", -1, dl, 1)
 		if !thorough(r) {
 			for _, alg := range fixtures.AlgNames {
 				exploreChoice(r, "c02.flip."+alg, 2, dl) // claims-set 0: all flips, truncations, substitutions; others: only the default mutation
